@@ -8,6 +8,8 @@
 //	response  =  9 bytes: uint32 length(9)  | uint32 id | 1
 //	close msg =  9 bytes: uint32 length(9)  | uint32 0  | 2          (what GetCloseMsg returns)
 //
+// flags: 1 = hold the receiver in ParsePackage on this request; 2 = one-way request (Invoke marks the
+// context TARSONEWAY: the server must not write a response); 4 = Invoke returns an empty response.
 // Invoke sleeps the duration and echoes the id. ParsePackage records the moment the receive loop
 // sees a complete request at the head of its buffer (event P: from then on the server HAS read the
 // request — the unambiguous meaning of "already read") and, for a request with flag 1, holds the
@@ -50,6 +52,7 @@ import (
 
 	"verifharness/common"
 
+	"github.com/TarsCloud/TarsGo/tars/protocol/res/basef"
 	"github.com/TarsCloud/TarsGo/tars/transport"
 	"github.com/TarsCloud/TarsGo/tars/util/current"
 	"github.com/TarsCloud/TarsGo/tars/util/rogger"
@@ -59,9 +62,10 @@ import (
 // scenario
 
 type ReqPlan struct {
-	Dur    int  `json:"dur_ms"`
-	LateMs int  `json:"late_ms,omitempty"` // > 0: written this long after Shutdown was called
-	Stall  bool `json:"stall,omitempty"`   // the receiver is held in ParsePackage on this request
+	Dur    int    `json:"dur_ms"`
+	LateMs int    `json:"late_ms,omitempty"` // > 0: written this long after Shutdown was called
+	Stall  bool   `json:"stall,omitempty"`   // the receiver is held in ParsePackage on this request
+	Kind   string `json:"kind,omitempty"`    // "" ordinary | "oneway" TARSONEWAY packet | "empty" Invoke returns an empty response
 }
 
 type ConnPlan struct {
@@ -90,7 +94,7 @@ func (sc Scenario) key() string {
 // history
 
 type event struct {
-	Kind string // C S P I E R M X D H T Y Q
+	Kind string // C S O P I E R M X D H T Y A Q
 	C    int
 	R    int
 	Arg  string // T: 1 | 0 | x
@@ -101,7 +105,7 @@ func (e event) token() string {
 	switch e.Kind {
 	case "C", "M", "X", "D", "Y":
 		return fmt.Sprintf("%s.%d", e.Kind, e.C)
-	case "S", "P", "I", "E", "R":
+	case "S", "O", "P", "I", "E", "R":
 		return fmt.Sprintf("%s.%d.%d", e.Kind, e.C, e.R)
 	case "T":
 		return "T." + e.Arg
@@ -180,7 +184,16 @@ func (p *proto) Invoke(ctx context.Context, pkg []byte) []byte {
 	if dur > 0 {
 		time.Sleep(time.Duration(dur) * time.Millisecond)
 	}
+	flags := binary.BigEndian.Uint32(pkg[12:])
+	if flags&2 != 0 {
+		current.SetPacketTypeFromContext(ctx, basef.TARSONEWAY)
+	} else {
+		current.SetPacketTypeFromContext(ctx, basef.TARSNORMAL)
+	}
 	p.rec.add(event{Kind: "E", C: id / idBase, R: id % idBase})
+	if flags&4 != 0 {
+		return nil
+	}
 	out := make([]byte, rspLen)
 	binary.BigEndian.PutUint32(out, rspLen)
 	binary.BigEndian.PutUint32(out[4:], uint32(id))
@@ -363,7 +376,10 @@ func runScenario(sc Scenario) (out outcome) {
 		srv, addr = s, a
 		break
 	}
-	go srv.Serve()
+	go func() {
+		srv.Serve()
+		rec.add(event{Kind: "A"})
+	}()
 
 	// connections; each is warmed up with one request so that its receive loop is known to run (the
 	// connection is in the server's table) before anything else happens
@@ -377,7 +393,16 @@ func runScenario(sc Scenario) (out outcome) {
 			if r.Stall {
 				fl = 1
 			}
-			rec.add(event{Kind: "S", C: c, R: seq[c]})
+			kind := "S"
+			switch r.Kind {
+			case "oneway":
+				fl |= 2
+				kind = "O"
+			case "empty":
+				fl |= 4
+				kind = "O"
+			}
+			rec.add(event{Kind: kind, C: c, R: seq[c]})
 			buf = append(buf, request(c*idBase+seq[c], r.Dur, fl)...)
 		}
 		clients[c].conn.Write(buf) // one segment: pipelined
@@ -465,7 +490,7 @@ func runScenario(sc Scenario) (out outcome) {
 			}
 		}
 	case "done":
-		if !waitUntil(syncWait+time.Duration(totalDur(sc))*time.Millisecond, func() bool { return cnt("R") >= warm+pre }) {
+		if !waitUntil(syncWait+time.Duration(totalDur(sc))*time.Millisecond, func() bool { return settled(rec.snapshot()) >= warm+pre }) {
 			out.err = "pre-shutdown requests not answered"
 		}
 	}
@@ -582,6 +607,27 @@ func runScenario(sc Scenario) (out outcome) {
 	return
 }
 
+// settled counts the requests that are over from the client's point of view: a response received, or —
+// for a request that gets none — its Invoke returned.
+func settled(evs []event) int {
+	type rk struct{ c, r int }
+	nr := map[rk]bool{}
+	n := 0
+	for _, e := range evs {
+		switch e.Kind {
+		case "O":
+			nr[rk{e.C, e.R}] = true
+		case "R":
+			n++
+		case "E":
+			if nr[rk{e.C, e.R}] {
+				n++
+			}
+		}
+	}
+	return n
+}
+
 func stallConn(sc Scenario) int {
 	for i, c := range sc.Conns {
 		for _, r := range c.Reqs {
@@ -631,20 +677,36 @@ func judge(sc Scenario, o outcome, k consts) []finding {
 	type rk struct{ c, r int }
 	parsed, started, ended, answered := map[rk]time.Duration{}, map[rk]time.Duration{}, map[rk]time.Duration{}, map[rk]time.Duration{}
 	eof, msg, connected := map[int]time.Duration{}, map[int]time.Duration{}, map[int]bool{}
-	var tH, tT time.Duration
+	noReply := map[rk]bool{}
+	var tH, tT, tServe, tWork time.Duration // tWork: the last moment a request was sent, started, ended or answered
+	served := false
 	retArg := ""
 	for _, e := range o.evs {
 		key := rk{e.C, e.R}
 		switch e.Kind {
+		case "S", "O", "P", "I", "E", "R":
+			tWork = e.At
+		}
+		switch e.Kind {
 		case "C":
 			connected[e.C] = true
+		case "O":
+			noReply[key] = true
+		case "A":
+			served, tServe = true, e.At
 		case "P":
 			parsed[key] = e.At
 		case "I":
 			started[key] = e.At
 		case "E":
 			ended[key] = e.At
+			if noReply[key] {
+				answered[key] = e.At // nothing will be written: the request is over when Invoke has returned
+			}
 		case "R":
+			if noReply[key] {
+				fs = append(fs, finding{"unexpected-response", "handleConn", fmt.Sprintf("request %d of connection %d needs no response (one-way / empty) and got one", e.R, e.C)})
+			}
 			if _, dup := answered[key]; dup {
 				fs = append(fs, finding{"duplicate-response", "handleConn", fmt.Sprintf("request %d of connection %d answered twice", e.R, e.C)})
 			}
@@ -759,6 +821,37 @@ func judge(sc Scenario, o outcome, k consts) []finding {
 			fs = append(fs, finding{"late-return", "Shutdown", fmt.Sprintf("all connections were closed %v after Shutdown was called, Shutdown returned only after %v (deadline %v)", lastX-tH, took, o.ctx)})
 		}
 	}
+	// 3b. nothing in flight, nothing arriving: Shutdown must return well before a long context expires,
+	// every connection must be closed by the server, and the accept loop must end (pool released)
+	allSettled := true
+	for key := range parsed {
+		if _, ok := answered[key]; !ok {
+			allSettled = false
+		}
+	}
+	idleFrom := tH
+	if tWork > idleFrom {
+		idleFrom = tWork
+	}
+	// wake-up poll + the receiver's drain poll + the next Shutdown poll + read deadline + slack
+	drainBudget := time.Duration(2*k.pollMs+k.drainMs+k.readDlMs)*time.Millisecond + 1500*time.Millisecond
+	if allSettled && tH > 0 && tH+o.ctx > idleFrom+drainBudget+slack {
+		if tT == 0 || tT > idleFrom+drainBudget {
+			fs = append(fs, finding{"shutdown-late", "Shutdown", fmt.Sprintf("every request was settled %v after Shutdown was called and nothing arrived afterwards; Shutdown (ctx %v) returned after %v — expected within %v of the last activity", idleFrom-tH, o.ctx, tT-tH, drainBudget)})
+		}
+		for c := range connected {
+			if x, ok := eof[c]; ok && x > idleFrom+drainBudget {
+				fs = append(fs, finding{"conn-not-closed", "recv-drain", fmt.Sprintf("connection %d had nothing in flight from %v on and was closed by the server only at %v", c, idleFrom, x)})
+			}
+		}
+		if !served || tServe > idleFrom+drainBudget+slack {
+			what := "Serve() (the accept loop) had not returned when everything was quiet"
+			if sc.Pool > 0 {
+				what += ": the worker pool was never released"
+			}
+			fs = append(fs, finding{"accept-loop-not-finished", "Handle", what})
+		}
+	}
 	// 4. a connection whose requests are all answered is closed within a few poll periods
 	for c := range connected {
 		if _, ok := eof[c]; ok {
@@ -786,6 +879,16 @@ func durs(rng *rand.Rand) int {
 	return []int{0, 0, 10, 30, 60, 120, 200, 300}[rng.Intn(8)]
 }
 
+func reqKind(rng *rand.Rand) string {
+	switch rng.Intn(8) {
+	case 0:
+		return "oneway"
+	case 1:
+		return "empty"
+	}
+	return ""
+}
+
 func fixedScenarios() []Scenario {
 	r := func(d ...int) []ReqPlan {
 		var out []ReqPlan
@@ -810,7 +913,7 @@ func fixedScenarios() []Scenario {
 		{Kind: "plan", Conns: []ConnPlan{{r(150, 20)}, {r(60)}, {}}, Trigger: "started", CtxMs: 5000, Model: true},
 		{Kind: "plan", Conns: []ConnPlan{{append(r(100), late(150, 50, 0)...)}}, Trigger: "started", CtxMs: 5000, Model: true},
 		{Kind: "plan", Conns: []ConnPlan{{late(200, 30)}, {r(250)}}, Trigger: "started", CtxMs: 5000, Model: true},
-		{Kind: "plan", Conns: []ConnPlan{{r(2600)}}, Trigger: "started", CtxMs: 1500, Model: true}, // handler outlives the context
+		{Kind: "plan", Conns: []ConnPlan{{r(2600)}}, Trigger: "started", CtxMs: 1500, Model: true},          // handler outlives the context
 		{Kind: "plan", Conns: []ConnPlan{{r(3200)}, {r(40)}}, Trigger: "started", CtxMs: 6500, Model: true}, // handler outlives the idle threshold, inside the context
 		// pool: D15 (three pipelined 300 ms requests, one worker) and relatives
 		{Kind: "plan", Pool: 1, QCap: 8, Conns: []ConnPlan{{r(300, 300, 300)}}, Trigger: "started", CtxMs: 3500, Model: true},
@@ -822,6 +925,13 @@ func fixedScenarios() []Scenario {
 		{Kind: "plan", Pool: 1, QCap: 1, Conns: []ConnPlan{{}}, Trigger: "idle", CtxMs: 3000, Model: true},
 		// a request of one connection waits in the queue behind more than two poll periods of another connection's work
 		{Kind: "plan", Pool: 1, QCap: 8, Seq: true, Conns: []ConnPlan{{r(400, 400, 400, 400)}, {r(30)}}, Trigger: "parsed", CtxMs: 5000, Model: true},
+		// requests that get no response (one-way packets, empty responses): their handlers leave through the
+		// early return of handleConn; the connection must still count as drained
+		{Kind: "plan", Conns: []ConnPlan{{[]ReqPlan{{Dur: 20}, {Dur: 10, Kind: "oneway"}}}}, Trigger: "done", CtxMs: 10000, Model: true},
+		{Kind: "plan", Conns: []ConnPlan{{[]ReqPlan{{Dur: 0, Kind: "empty"}}}, {[]ReqPlan{{Dur: 30}}}}, Trigger: "done", CtxMs: 10000, Model: true},
+		{Kind: "plan", Conns: []ConnPlan{{[]ReqPlan{{Dur: 300, Kind: "oneway"}, {Dur: 100}}}}, Trigger: "started", CtxMs: 9000, Model: true},
+		{Kind: "plan", Pool: 2, QCap: 8, Conns: []ConnPlan{{[]ReqPlan{{Dur: 0, Kind: "oneway"}, {Dur: 30}, {Dur: 10, Kind: "empty"}}}, {[]ReqPlan{{Dur: 0, Kind: "empty"}}}}, Trigger: "done", CtxMs: 10000, Model: true},
+		{Kind: "plan", Pool: 1, QCap: 2, Conns: []ConnPlan{{[]ReqPlan{{Dur: 50}, {Dur: 20, Kind: "oneway", LateMs: 150}}}}, Trigger: "done", CtxMs: 9000, Model: true},
 		// D16
 		{Kind: "toctou", Conns: []ConnPlan{{[]ReqPlan{{Dur: 20, Stall: true}}}}, Trigger: "parsed", CtxMs: 5000, StaleMs: 3100, Model: true},
 	}
@@ -849,7 +959,7 @@ func randomScenario(rng *rand.Rand, thorough bool) Scenario {
 			n = 0
 		}
 		for i := 0; i < n; i++ {
-			cp.Reqs = append(cp.Reqs, ReqPlan{Dur: durs(rng)})
+			cp.Reqs = append(cp.Reqs, ReqPlan{Dur: durs(rng), Kind: reqKind(rng)})
 		}
 		if rng.Intn(4) == 0 { // late requests, all written at the same moment
 			ms := 60 + rng.Intn(200)
@@ -864,7 +974,7 @@ func randomScenario(rng *rand.Rand, thorough bool) Scenario {
 	if total == 0 {
 		sc.Trigger = "idle"
 	}
-	sc.CtxMs = []int{2500, 3500, 5000}[rng.Intn(3)]
+	sc.CtxMs = []int{2500, 3500, 5000, 9000}[rng.Intn(4)]
 	sc.Model = total <= 7 && nc <= 2 || total <= 4
 	_ = thorough
 	return sc
